@@ -53,7 +53,9 @@ def draw_run(seed, i, cfgs, tier):
         pol.update(p_stall=rng.choice([0.01, 0.03, 0.1]), max_stall=rng.choice([10, 60, 300]))
     args = dict(runname=cfg['runname'], compl=cfg['compl'], basis=cfg['basis'], P=P, seed=rs, policy=pol,
                 eager=rng.choice([0.0, 0.2, 0.5, 0.8, 1.0]), root_copy=rng.random() < 0.25,
-                run_seed=rs, nfun=cfg['nfun'])
+                run_seed=rs, nfun=cfg['nfun'], npseed=rng.randrange(1, 10 ** 6))
+    # npseed: the state of numpy's global generator when the ranks start (under real MPI it comes from OS entropy and differs
+    # per rank and per run); generation seeds explicitly where it shuffles, so no output may depend on it
     if rng.random() < (0.15 if tier == 'quick' else 0.3):
         # F6b: what mpirun does by default - every rank's interpreter has its own string-hash secret.
         # Offsets relative to the pool's hash seed; resolved to absolute seeds when the job is issued.
